@@ -124,6 +124,16 @@ func newRxEnvVia(nEed, nEnv int, viaReader bool) *rxEnv {
 	return e
 }
 
+// shutdown ends the connection of a case: the context is cancelled and, for a case whose packets travel over
+// the in-memory transport, the transport is closed so that the reader goroutine (blocked in Read) ends and
+// the connection with its queues can be collected
+func (e *rxEnv) shutdown() {
+	e.conn.VerifCancel()
+	if e.mc != nil {
+		e.mc.Close()
+	}
+}
+
 func (e *rxEnv) note(s string) {
 	e.mu.Lock()
 	e.hooks = append(e.hooks, s)
@@ -208,7 +218,7 @@ func rxImpl(line string) string {
 		return "bad-op"
 	}
 	e := newRxEnvVia(ne, nv, f[0] == "rxr")
-	defer e.conn.VerifCancel()
+	defer e.shutdown()
 	send := false
 	for _, t := range f[3:] {
 		if t == "send" {
@@ -805,6 +815,12 @@ var errCb = errors.New("callback failed")
 var errCbWrapsEOF = fmt.Errorf("error reading value: %w", io.EOF)
 
 // cbErrOf: the error the callback of a spec returns
+// isMethodErr matches errCb through its Is method (as syscall.Errno matches fs.ErrNotExist)
+type isMethodErr struct{}
+
+func (isMethodErr) Error() string        { return "an error with an Is method" }
+func (isMethodErr) Is(target error) bool { return target == errCb }
+
 func cbErrOf(spec string) error {
 	switch {
 	case strings.HasPrefix(spec, "weof"):
@@ -890,6 +906,17 @@ func (e *rxEnv) round(spec string) string {
 			case strings.HasPrefix(spec, "fail"):
 				j, _ = strconv.Atoi(spec[4:])
 				if idx == j {
+					// the callback's error in the shapes errors come in: the sentinel itself, wrapped with %w, joined
+					// with another error, or a type that matches through its own Is method — errors.Is(result,
+					// errCb) must hold for each
+					switch (j + len(seen) + e.nEed) % 4 {
+					case 1:
+						return false, fmt.Errorf("callback: %w", errCb)
+					case 2:
+						return false, errors.Join(errors.New("another error"), errCb)
+					case 3:
+						return false, isMethodErr{}
+					}
 					return false, errCb
 				}
 			case strings.HasPrefix(spec, "weof"): // an error that wraps io.EOF is not the io.EOF signal
@@ -948,7 +975,7 @@ func useImpl(line string) string {
 	}
 	specs := strings.Split(f[3], ",")
 	e := newRxEnvVia(ne, nv, f[0] == "user")
-	defer e.conn.VerifCancel()
+	defer e.shutdown()
 	var outs []string
 	r := 0
 	for _, t := range f[4:] {
